@@ -52,8 +52,42 @@ Proof.
   destruct p; try discriminate; try (destruct k; try discriminate); intros H; rewrite ?H; cbn; auto 10.
 Qed.
 
-(* to do: `aintr_step : step s l = Some s' -> aintr s' = aintr s` (the switch is a constant) and the
-   preservation of inv3 under aintr = true; see notes/C01.md *)
+(* the idealisation switch is a constant of the run *)
+Lemma a_setT s t r : aintr (setT s t r) = aintr s. Proof. reflexivity. Qed.
+Lemma a_setM s m r : aintr (setM s m r) = aintr s. Proof. reflexivity. Qed.
+Lemma a_goto s t p : aintr (goto s t p) = aintr s. Proof. reflexivity. Qed.
+Lemma a_acquired s t m rc : aintr (acquired s t m rc) = aintr s.
+Proof. unfold acquired. destruct rc; reflexivity. Qed.
+Lemma a_ret_lock s t c r e : aintr (ret_lock s t c r e) = aintr s.
+Proof. unfold ret_lock. rewrite a_goto. destruct (r =? 0); [apply a_acquired|reflexivity]. Qed.
+Lemma a_dequeue s x ns : aintr (dequeue s x ns) = aintr s.
+Proof. unfold dequeue. destruct (wq (th s x)); reflexivity. Qed.
+Lemma a_prelocked s a x e : aintr (prelocked_interrupt s a x e) = aintr s.
+Proof. unfold prelocked_interrupt. rewrite a_dequeue. reflexivity. Qed.
+Lemma a_after_sleep s t k r e : aintr (after_sleep s t k r e) = aintr s.
+Proof. unfold after_sleep. destruct k; [|reflexivity]. destruct ((r <? 0) && (e =? -1)); [reflexivity|]. destruct (r =? 0); apply a_ret_lock. Qed.
+Lemma a_intr_out s t x e lk : aintr (intr_out s t x e lk) = aintr s.
+Proof.
+  unfold intr_out. destruct (aintr s) eqn:E.
+  - rewrite a_goto. destruct (tstate_eqb (st (th s x)) READY && (err (th s x) =? 0)); [rewrite a_setT|]; exact E.
+  - destruct (tstate_eqb (st (th s x)) READY); rewrite a_goto; exact E.
+Qed.
+Ltac ar := repeat first [rewrite a_goto | rewrite a_ret_lock | rewrite a_after_sleep | rewrite a_intr_out | rewrite a_prelocked
+                        | rewrite a_dequeue | rewrite a_acquired | rewrite a_setT | rewrite a_setM]; try reflexivity.
+Lemma aintr_step s l s' : step s l = Some s' -> aintr s' = aintr s.
+Proof.
+  intros Hs. destruct l; cbn [step] in Hs.
+  - unfold start in Hs. destruct (pc (th s t)); try discriminate. destruct o; split_ifs Hs; try discriminate; injection Hs as <-; ar.
+  - unfold tstep in Hs. cbv zeta in Hs. destruct (pc (th s t)); unfold try_lock in Hs; split_ifs Hs; try discriminate;
+      injection Hs as <-; ar.
+  - unfold sched in Hs. split_ifs Hs; try discriminate; injection Hs as <-; ar.
+  - unfold drain in Hs. split_ifs Hs; try discriminate; injection Hs as <-; ar.
+  - unfold exp_lock in Hs. split_ifs Hs; try discriminate; injection Hs as <-; ar.
+  - unfold exp_body in Hs. split_ifs Hs; try discriminate; injection Hs as <-; ar.
+  - split_ifs Hs; try discriminate; injection Hs as <-; reflexivity.
+Qed.
+
+(* to do: the preservation of inv3 under aintr = true; see notes/C01.md *)
 Definition inv3_preserved : Prop :=
   forall s l s', inv1 s -> inv2 s -> aintr s = true -> inv3 s -> step s l = Some s' -> inv3 s'.
 (* the full-strength statements that inv3 yields (kept as Definitions: not proved yet) *)
